@@ -26,6 +26,11 @@ def variants():
     out.append({"entry": "challenge", "variant": {"ti": [[7, 0]]}})                               # empty timestamp
     out.append({"entry": "challenge", "variant": {"ti": [[7, 7]]}})
     out.append({"entry": "challenge", "variant": {"ti": [[7, 400], [1, 400], [2, 400]]}})
+    # target info so long that the NT response echoing it (16 + 28 + target info) reaches / passes the 16-bit length fields
+    # of the AUTHENTICATE message (target info = n + 20 bytes)
+    for n in (0x7f00, 0xff00, 0xffbe, 0xffbf, 0xffc0, 0xffd0, 0xffdc, 0xffea, 0xffeb):
+        out.append({"entry": "challenge", "variant": {"ti": [[7, 8], [2, n]]}})
+        out.append({"entry": "challenge", "variant": {"ti": [[2, n], [7, 8]]}})
     for fl in (0, 1, 0x02000000, 0xE28A8235 & ~0x02000000, 0xffffffff, 0xE28A8234):
         out.append({"entry": "challenge", "variant": {"ti": [[7, 8]], "flags": fl}})
     # (len, maxlen, offset) triples: TargetName at 12, TargetInfo at 40 (offset field at +4)
@@ -78,6 +83,10 @@ def run(tier, seed):
         for s in shorts:
             for e in ("challenge", "ts_challenge", "ts_validate", "unwrap"):
                 plans.append({"entry": e, "raw": s})
+        for e in ("ts_challenge", "ts_validate"):
+            for n in (70, 600, 4000, 16000):
+                plans.append({"entry": e, "raw": [0x30, 0x80] * n})
+                plans.append({"entry": e, "raw": [0x30, 0x80, 0xa0, 0x80] * (n // 2)})
         for i, p in enumerate(plans):
             p["id"] = "n%d" % i
         plans.append({"id": "selftest", "entry": "challenge", "layer": "all", "faults": [{"op": "set8", "off": 3, "v": 0}]})
